@@ -50,6 +50,13 @@ func init() {
 						}
 					}
 				}
+				if conf["mux"] == "1" {
+					// brokered connections are yamux streams of the main connection:
+					// nobody but an on-path observer can see them
+					for _, l := range []string{"cmd", "runner"} {
+						cells = append(cells, cp(conf, "path", "mux-brokered", "cred", "observer", "when", "after", "launch", l))
+					}
+				}
 				cells = append(cells, cp(conf, "impostor", "1"))
 				cells = append(cells, cp(conf, "impostor", "nocert"))
 				cells = append(cells, cp(conf, "impostor", "shortcert"))
@@ -213,7 +220,7 @@ func runC12(r *h.Run) {
 		}
 		return 0
 	}
-	r.WatchPlaintext(ctx)
+	wire := r.WatchWire(ctx, c.Mux)
 	r.InstallPlugin(&c)
 	cl := r.NewClient(c)
 
@@ -316,7 +323,24 @@ func runC12(r *h.Run) {
 		return "", oo.Err
 	}
 	call("tag", "")
-	if path != "main" && cmd != nil {
+	if path == "mux-brokered" && cmd != nil {
+		for round := 0; round < 2; round++ {
+			id := uint32(700 + 10*round)
+			call("accept", fmt.Sprint(id))
+			if oo := r.DoNoHang("HostDial", 60*time.Second, ctx, func() (any, error) { return h.HostDialPing(cmd, id) }); oo.Err == nil {
+				legit++
+			} else if !oo.Hung {
+				r.Violate("legit-host-broken", ctx+" host->plugin", oo.Err.Error())
+			}
+			h.HostAccept(r, cmd, id+1)
+			if _, err := call("dial", fmt.Sprint(id+1)); err != nil {
+				r.Violate("legit-host-broken", ctx+" plugin->host", err.Error())
+			}
+		}
+		if n, tlsN, _ := wire.Counts(); n < 5 || tlsN < 10 {
+			r.Violate("setup", "observer saw too few multiplexed streams "+ctx, fmt.Sprintf("streams=%d tls-starts=%d", n, tlsN))
+		}
+	} else if path != "main" && cmd != nil {
 		if when == "before" {
 			startIntruder()
 		}
